@@ -42,6 +42,9 @@ pub struct Session {
     pub verify_version: bool,
     /// the user write after a drop is a `handshake` (the other public call that writes) instead of a `write`
     pub handshake_after_drop: bool,
+    /// the packet the user writes after a drop is itself TINY_NONE with request id 0 (indistinguishable from a reply on
+    /// the wire: the outgoing side must then hold one frame per keep-alive received plus one per such write)
+    pub user_writes_keepalive: bool,
     pub label: String,
 }
 
@@ -143,7 +146,8 @@ pub fn run_session(s: &Session) -> Outcome {
                     }
                 }
             } else {
-                let mut wf = Box::pin(f.write(Packet::Tiny(Tiny { reqi: RequestId(77), subt: TinyType::Ping })));
+                let user_packet = if s.user_writes_keepalive { Tiny { reqi: RequestId(0), subt: TinyType::None } } else { Tiny { reqi: RequestId(77), subt: TinyType::Ping } };
+                let mut wf = Box::pin(f.write(Packet::Tiny(user_packet)));
                 for _ in 0..10_000 {
                     out.polls += 1;
                     if let Poll::Ready(_r) = wf.as_mut().poll(&mut cx) {
@@ -234,6 +238,14 @@ fn judge(s: &Session, o: &Outcome, p: &mut Part) {
             format!("{} [{}]: outgoing bytes {} do not parse into whole frames (drops {:?})", mode_name(s.compressed), s.label, hex(&o.written[..o.written.len().min(64)]), o.suspended_on),
             replay(),
         );
+    } else if s.user_writes_keepalive && !s.handshake_after_drop {
+        if replies != keepalives + o.user_frames || users != 0 {
+            p.violation(
+                format!("C19/{where_}/outgoing-differs"),
+                format!("{} [{}]: {keepalives} keep-alives received and {} keep-alive packets written by the user: {replies} TINY_NONE frames on the wire", mode_name(s.compressed), s.label, o.user_frames),
+                replay(),
+            );
+        }
     } else if replies != keepalives || users != o.user_frames {
         p.violation(
             format!("C19/{where_}/outgoing-differs"),
@@ -341,7 +353,7 @@ pub fn run(ctx: &mut Ctx) -> (&'static str, String, bool) {
                 (rplan, wplan)
             };
             let (rplan, wplan) = mk_plans();
-            let base = Session { compressed: *compressed, stream: stream.clone(), read_plan: rplan, default_read: 0, write_plan: wplan, default_write: 0, drops: BTreeSet::new(), write_after_drop: false, flush_plan: if *fl == 0 { None } else { Some((0..200).map(|i| i % fl != fl - 1).collect()) }, verify_version: label.contains("ver"), handshake_after_drop: false, label: format!("{label}-r{rp}x{rk}-w{wp}x{wk}-f{fl}") };
+            let base = Session { compressed: *compressed, stream: stream.clone(), read_plan: rplan, default_read: 0, write_plan: wplan, default_write: 0, drops: BTreeSet::new(), write_after_drop: false, flush_plan: if *fl == 0 { None } else { Some((0..200).map(|i| i % fl != fl - 1).collect()) }, verify_version: label.contains("ver"), handshake_after_drop: false, user_writes_keepalive: false, label: format!("{label}-r{rp}x{rk}-w{wp}x{wk}-f{fl}") };
             // uninterrupted reference run
             let o0 = run_session(&base);
             p.evaluations += 1;
@@ -349,7 +361,7 @@ pub fn run(ctx: &mut Ctx) -> (&'static str, String, bool) {
             let total = o0.polls;
             // every single drop point
             for k in 1..=total + 2 {
-                for wad in [0u8, 1, 2] {
+                for wad in [0u8, 1, 2, 3] {
                     if miri && wad > 0 && k % 2 == 0 {
                         continue;
                     }
@@ -357,7 +369,8 @@ pub fn run(ctx: &mut Ctx) -> (&'static str, String, bool) {
                     let _ = s.drops.insert(k);
                     s.write_after_drop = wad > 0;
                     s.handshake_after_drop = wad == 2;
-                    s.label = format!("{}-drop{k}{}", base.label, ["", "-then-write", "-then-handshake"][wad as usize]);
+                    s.user_writes_keepalive = wad == 3;
+                    s.label = format!("{}-drop{k}{}", base.label, ["", "-then-write", "-then-handshake", "-then-write-keepalive"][wad as usize]);
                     let o = run_session(&s);
                     p.evaluations += 1;
                     p.distinct(&s.label);
@@ -446,7 +459,7 @@ pub fn run(ctx: &mut Ctx) -> (&'static str, String, bool) {
             let ndrops = r.usize_below(30);
             let horizon = 50 + stream.len() / 4;
             let drops: BTreeSet<usize> = (0..ndrops).map(|_| 1 + r.usize_below(horizon)).collect();
-            let s = Session { compressed, stream, read_plan: rplan, default_read: 1 + r.usize_below(900), write_plan: wplan, default_write: 1 + r.usize_below(4), drops, write_after_drop: r.chance(1, 3), flush_plan: if i % 3 == 2 { Some((0..r.usize_below(60)).map(|_| r.chance(1, 2)).collect()) } else { None }, verify_version: i % 4 == 1, handshake_after_drop: i % 5 == 3, label: format!("long-{i}") };
+            let s = Session { compressed, stream, read_plan: rplan, default_read: 1 + r.usize_below(900), write_plan: wplan, default_write: 1 + r.usize_below(4), drops, write_after_drop: r.chance(1, 3), flush_plan: if i % 3 == 2 { Some((0..r.usize_below(60)).map(|_| r.chance(1, 2)).collect()) } else { None }, verify_version: i % 4 == 1, handshake_after_drop: i % 5 == 3, user_writes_keepalive: i % 7 == 2, label: format!("long-{i}") };
             let o = run_session(&s);
             p.evaluations += 1;
             p.distinct(&s.stream);
